@@ -762,6 +762,16 @@ func (fe *FnEnc) execInstr(st *State, ins ssa.Instruction) {
 		// arguments are evaluated, the spawned call is not part of this call's sequential behaviour;
 		// the preconditions of a spawned function under contract are checked where it is spawned
 		if callee := x.Call.StaticCallee(); callee != nil {
+			if o := callee.Origin(); o != nil {
+				callee = o
+			}
+			// ghost: how often this call spawned the function (spawned(Key) in contracts)
+			skey := callee.Name()
+			if r := callee.Signature.Recv(); r != nil {
+				skey = recvTypeName(r.Type()) + "." + callee.Name()
+			}
+			cn := "SPAWN." + skey
+			fe.setComp(st, cn, sInt, tArith("+", fe.getComp(st, cn, sInt), tInt(1)))
 			if fc := fe.c.contractFor(callee); fc != nil && !fe.dry {
 				fe.goPreconditions(st, x, fc, callee)
 			}
